@@ -119,6 +119,7 @@ func (al alphabet) enumTerms(n int, f func(*Term)) {
 			if guarded(a) {
 				emit(&Term{K: "loop", A: a})
 			}
+			emit(&Term{K: "twice", A: a})
 			for _, c := range al.conds {
 				emit(&Term{K: "while", Cond: c, A: a})
 				for _, p := range al.posts {
@@ -154,7 +155,7 @@ func guarded(t *Term) bool {
 	switch t.K {
 	case "delay", "bind", "bindrecv":
 		return t.S != nil
-	case "combine":
+	case "combine", "twice":
 		return guarded(t.A)
 	case "while", "if":
 		return true // the condition burns fuel
@@ -210,7 +211,7 @@ func drawTerm(t *rapid.T, o termOpts, depth int, label string) *Term {
 	kinds := []string{"normal", "break", "continue", "return", "retval"}
 	if depth < o.maxDepth {
 		inner := []string{"delay", "delay", "bind", "bind", "bind", "bindrecv", "combine", "combine", "combine",
-			"for", "for", "while", "loop", "if", "if"}
+			"for", "for", "while", "loop", "if", "if", "twice"}
 		kinds = append(kinds, inner...)
 		if depth < 3 {
 			// near the root compound terms dominate, otherwise most drawn terms are a single leaf
@@ -256,7 +257,7 @@ func drawTerm(t *rapid.T, o termOpts, depth int, label string) *Term {
 		r.Cond = drawCond(t, o, label+".c")
 		r.A = drawTerm(t, o, depth+1, label+"a")
 		r.B = drawTerm(t, o, depth+1, label+"b")
-	case "loop":
+	case "loop", "twice":
 		r.A = drawTerm(t, o, depth+1, label+"a")
 		if !guarded(r.A) {
 			r.A = &Term{K: "delay", S: drawScript(t, o, label+".g"), A: r.A}
